@@ -780,6 +780,39 @@ Proof.
   - apply (upd_positions_spec j v ps b r Hnd Hlt H).
 Qed.
 
+(* ---------------- equality against arbitrary operands ---------------- *)
+Lemma seq_eq_val_iff s o : seq_eq_val s o = true <-> o = VS (data s).
+Proof.
+  unfold seq_eq_val. destruct o; try (split; [discriminate|intros H; discriminate H]).
+  rewrite str_eqb_eq. split; [intros ->; reflexivity|intros H; inversion H; reflexivity].
+Qed.
+Lemma basket_contains_iff b o : basket_contains b o = true <-> exists s, In s b /\ o = VS (data s).
+Proof.
+  unfold basket_contains. rewrite existsb_exists. split; intros (s & Hs & H); exists s; (split; [exact Hs|]); apply seq_eq_val_iff; exact H.
+Qed.
+Lemma basket_index_spec o : forall b k,
+  match basket_index b o k with
+  | Some i => exists b1 s b2, b = b1 ++ s :: b2 /\ i = k + Z.of_nat (length b1) /\ o = VS (data s) /\
+                              forall x, In x b1 -> seq_eq_val x o = false
+  | None => basket_contains b o = false
+  end.
+Proof.
+  induction b as [|s b IH]; intros k; cbn [basket_index]; [reflexivity|].
+  destruct (seq_eq_val s o) eqn:E.
+  - exists [], s, b. split; [reflexivity|]. split; [cbn; lia|]. split; [apply seq_eq_val_iff; exact E|intros x []].
+  - specialize (IH (k + 1)). destruct (basket_index b o (k + 1)) as [i|].
+    + destruct IH as (b1 & t & b2 & -> & -> & Ho & Hn). exists (s :: b1), t, b2.
+      split; [reflexivity|]. split; [cbn [length]; lia|]. split; [exact Ho|].
+      intros x [<-|Hx]; [exact E|apply Hn; exact Hx].
+    + unfold basket_contains in *. cbn [existsb]. rewrite E, IH. reflexivity.
+Qed.
+Lemma basket_eq_list_iff : forall b os, basket_eq_list b os = true <-> os = map (fun s => VS (data s)) b.
+Proof.
+  induction b as [|s b IH]; intros [|o os]; cbn [basket_eq_list map]; split; try discriminate; try reflexivity.
+  - intros H. apply andb_prop in H. destruct H as [H1 H2]. apply seq_eq_val_iff in H1. apply IH in H2. congruence.
+  - intros H. inversion H; subst. apply andb_true_intro. split; [apply seq_eq_val_iff; reflexivity|apply IH; reflexivity].
+Qed.
+
 (* ---------------- exact rationals ---------------- *)
 From Coq Require Import QArith.
 Local Open Scope Q_scope.
